@@ -162,6 +162,18 @@ func colorClassForIndividual(individual *gedcom.IndividualNode) string {
 	return colorClassForSex(individual.Sex())
 }
 
+// isReservedPageKey is true when the key would give a page the same file name
+// as one of the pages that always have the same name.
+func isReservedPageKey(key string) bool {
+	switch key + ".html" {
+	case PagePlaces(), PageFamilies(), PageSources(), PageStatistics(),
+		PageSurnames():
+		return true
+	}
+
+	return strings.HasPrefix(key, "individuals-")
+}
+
 func getUniqueKey(individualMap map[string]*gedcom.IndividualNode, s string, placesMap map[string]*place) string {
 	i := -1
 	for {
@@ -170,6 +182,10 @@ func getUniqueKey(individualMap map[string]*gedcom.IndividualNode, s string, pla
 		testString := s
 		if i > 0 {
 			testString = fmt.Sprintf("%s-%d", s, i)
+		}
+
+		if isReservedPageKey(testString) {
+			continue
 		}
 
 		if _, ok := individualMap[testString]; ok {
